@@ -64,7 +64,7 @@ structure Iter where
   status : Nat := 0
 
 inductive DOp where
-  | m (ops : List Op)
+  | m (ops : List XOp)
   | defclass (c p : Cls)
   | qstart (k : Nat) (c : Cls)
   | qnext (k : Nat)
@@ -77,7 +77,7 @@ def parseD (xs : List Sexp) : Option (List DOp) :=
         | .list [.atom "defclass", c, p] => do pure (DOp.defclass (← c.asNat?) (← p.asNat?))
         | .list [.atom "qstart", k, c] => do pure (DOp.qstart (← k.asNat?) (← c.asNat?))
         | .list [.atom "qnext", k] => do pure (DOp.qnext (← k.asNat?))
-        | _ => do pure (DOp.m (← parseOp pos x))
+        | _ => do pure (DOp.m (← parseXOne pos x))
       let b ← go (pos + 1) r
       pure (a :: b)
   go 0 xs
@@ -125,7 +125,7 @@ def advance (q : Quirks) (snap : Bool) (S : Schema) (Sfinal : Schema) (st : DSt)
   go (it.walk.length + it.cur.length + st.g.byClass.length + 2) it
 
 def stepDOp (q : Quirks) (snap : Bool) (Sfinal : Schema) (r : DRun) : DOp → DRun
-  | .m ops => { r with st := runFromS Sfinal q r.st ops }
+  | .m ops => { r with st := runXS Sfinal q r.st ops }
   | .defclass c p => { r with defs := r.defs ++ [(c, p)] }
   | .qstart k c =>
     if r.iters.any (fun it => it.key == k) then r
@@ -173,8 +173,12 @@ def trigSuspended (S : Schema) (ops : List DOp) : Bool × Bool :=
     | .m os =>
       let open_ := pending.filter (fun p => started.contains p.1)
       let created := os.any (fun o => match o with
-        | .new _ c _ => open_.any (fun p => isBelow S p.2 c) | _ => false)
-      let dropped := !open_.isEmpty && os.any (fun o => match o with | .drop _ => true | _ => false)
+        | .m (.new _ c _) => open_.any (fun p => isBelow S p.2 c)
+        | .newrole .. => open_.any (fun p => isBelow S p.2 8)
+        | .newholder .. => open_.any (fun p => isBelow S p.2 12)
+        | .clone .. => !open_.isEmpty
+        | _ => false)
+      let dropped := !open_.isEmpty && os.any (fun o => match o with | .m (.drop _) => true | _ => false)
       (pending, started, t3 || created, t4 || dropped)
     | _ => acc
   let r := ops.foldl step ([], [], false, false)
@@ -183,8 +187,11 @@ def trigSuspended (S : Schema) (ops : List DOp) : Bool × Bool :=
 def run (s : Sexp) : String :=
   match s with
   | .list (.atom "h" :: xs) =>
-    match parseOps xs, parseD xs with
-    | some ops, some dops =>
+    match parseD xs with
+    | some dops =>
+      let ops : List Op := dops.flatMap (fun d => match d with
+        | .m xs => xs.filterMap (fun x => match x with | XOp.m op => some op | _ => none)
+        | _ => [])
       let S := schemaWith (parseDefs xs)
       let m := obsD (runDOps Quirks.asIs false S dops)
       let mr := obsD (runDOps Quirks.none true S dops)
@@ -193,6 +200,6 @@ def run (s : Sexp) : String :=
       let trig := joinTrig [(trigReeval ops, "F-C13-1"),
         (trigDiamond S ops || its.any (fun c => hasDup (S.below c)), "F-C13-2"), (t3, "F-C13-3"), (t4, "F-C13-4")]
       s!"model={m}\tspec=ok|*\ttrig={trig}\tmodel_repaired={mr}"
-    | _, _ => "error=bad-case"
+    | none => "error=bad-case"
   | _ => "error=bad-case"
 end KrroodVerif.Drive.C13
